@@ -488,7 +488,19 @@ func (c *Chain) ProduceBlock(txs []TxSpec, dt int64, absent map[string]bool) *Bl
 		ProposerAddress: c.Vals.Proposer.Address,
 	}
 	if w.ObsOn {
-		rb, _ := res.Marshal()
+		if dbgDump != nil {
+			dbgDump(c.Name, height, res.String())
+		}
+		// Log and Info of a transaction result are explicitly non-deterministic in ABCI (a recovered panic puts a
+		// stack trace with addresses there) and are not part of what nodes agree on: leave them out
+		cp := *res
+		cp.TxResults = nil
+		for _, tr := range res.TxResults {
+			c2 := *tr
+			c2.Log, c2.Info = "", ""
+			cp.TxResults = append(cp.TxResults, &c2)
+		}
+		rb, _ := cp.Marshal()
 		h := sha256.Sum256(rb)
 		w.Obs = append(w.Obs, ObsRec{Chain: c.Name, H: height, App: hex.EncodeToString(c.App.LastCommitID().Hash)[:16], Res: hex.EncodeToString(h[:8])})
 	}
@@ -504,6 +516,8 @@ func (c *Chain) ProduceBlock(txs []TxSpec, dt int64, absent map[string]bool) *Bl
 	}
 	return br
 }
+
+var dbgDump func(chain string, height int64, s string)
 
 func sortedKeys[V any](m map[string]V) []string {
 	ks := make([]string, 0, len(m))
